@@ -12,7 +12,11 @@ use std::sync::atomic::{AtomicU64, Ordering};
 use std::sync::Mutex;
 use std::time::Instant;
 
-pub const VERIF_ROOT: &str = "/verif";
+/// Root of the verification tree; `VERIF_ROOT` overrides it (used by the isolated mutant runner so
+/// that a run against a scratch copy of the repository writes its evidence elsewhere).
+pub fn verif_root() -> PathBuf {
+    PathBuf::from(std::env::var("VERIF_ROOT").unwrap_or_else(|_| "/verif".to_string()))
+}
 
 #[derive(Clone, Copy, Debug, PartialEq, Eq)]
 pub enum Tier {
@@ -331,7 +335,7 @@ impl Ctx {
     /// violation is replayed twice and must reproduce identically before it is reported).
     pub fn finish(&self, run_case: &dyn Fn(&Value) -> Vec<Violation>) -> ! {
         let buckets = std::mem::take(&mut *self.buckets.lock().unwrap());
-        let replay_dir = PathBuf::from(VERIF_ROOT).join("evidence").join("replay");
+        let replay_dir = verif_root().join("evidence").join("replay");
         let _ = std::fs::create_dir_all(&replay_dir);
         // remove stale artefacts of this property
         if let Ok(rd) = std::fs::read_dir(&replay_dir) {
@@ -504,7 +508,7 @@ impl Ctx {
             "wall_s": (self.elapsed() * 100.0).round() / 100.0,
             "violations": total_new,
         });
-        let dir = PathBuf::from(VERIF_ROOT).join("evidence");
+        let dir = verif_root().join("evidence");
         let _ = std::fs::create_dir_all(&dir);
         let path = dir.join(format!("{}.json", self.prop));
         if let Err(e) = std::fs::write(&path, serde_json::to_string_pretty(&ev).unwrap()) {
@@ -529,15 +533,20 @@ fn truncate(s: &str, n: usize) -> String {
 }
 
 fn load_findings(prop: &str) -> Vec<Finding> {
-    let p = PathBuf::from(VERIF_ROOT).join("known_findings.json");
+    let mut out = Vec::new();
+    let mut files = vec![verif_root().join("known_findings.json")];
+    // development aid: an additional (uncommitted) findings file, e.g. proposals of a check author
+    if let Ok(extra) = std::env::var("VERIF_EXTRA_FINDINGS") {
+        files.push(PathBuf::from(extra));
+    }
+    for p in files {
     let Ok(txt) = std::fs::read_to_string(&p) else {
-        return Vec::new();
+        continue;
     };
     let v: Value = match serde_json::from_str(&txt) {
         Ok(v) => v,
-        Err(e) => machinery(&format!("known_findings.json is not valid JSON: {}", e)),
+        Err(e) => machinery(&format!("{} is not valid JSON: {}", p.display(), e)),
     };
-    let mut out = Vec::new();
     if let Some(arr) = v.get("findings").and_then(|a| a.as_array()) {
         for f in arr {
             if f.get("property").and_then(|x| x.as_str()) != Some(prop) {
@@ -568,6 +577,7 @@ fn load_findings(prop: &str) -> Vec<Finding> {
                 sigs,
             });
         }
+    }
     }
     out
 }
